@@ -120,6 +120,9 @@ func (idx *Index) LoadCommandEmbeddings(filepath string) error {
 // checkRecordCount rejects a record count from a file header that the file
 // is too small to hold, so that allocations stay proportional to the file.
 func checkRecordCount(f *os.File, count uint32, minRecordBytes int64) error {
+	if minRecordBytes <= 0 {
+		return fmt.Errorf("invalid record size %d", minRecordBytes)
+	}
 	info, err := f.Stat()
 	if err != nil {
 		return err
